@@ -5,7 +5,7 @@ use feos::gc_pcsaft::{GcPcSaft, GcPcSaftEosParameters};
 use feos::pcsaft::{PcSaft, PcSaftParameters};
 use feos::pets::{Pets, PetsParameters, PetsRecord};
 use feos::saftvrmie::{SaftVRMie, SaftVRMieParameters};
-use feos::saftvrqmie::{SaftVRQMie, SaftVRQMieParameters};
+use feos::saftvrqmie::{SaftVRQMie, SaftVRQMieParameters, SaftVRQMieRecord};
 use feos::uvtheory::{Perturbation, UVTheory, UVTheoryOptions, UVTheoryParameters, UVTheoryRecord};
 use feos::ResidualModel;
 use feos_core::cubic::{PengRobinson, PengRobinsonParameters};
@@ -357,7 +357,24 @@ pub fn literal() -> Vec<Config> {
         let p = ElectrolytePcSaftParameters::from_records(recs, Some(b)).unwrap();
         v.push(cfg("epcsaft_literal_kij_of_t", M::ElectrolytePcSaft(ElectrolytePcSaft::new(Arc::new(p))), 2, 350.0, true));
     }
+    // SAFT-VR Mie at the boundary value m = 1 exactly (shipped record; the chain / monomer paths are chosen by comparing m with 1)
+    v.push(cfg("saftvrmie_methane_m1", M::SaftVRMie(saftvrmie(&["methane"])), 1, 190.0, true));
+    // SAFT-VRQ Mie with mixed Feynman-Hibbs orders (thorough tier: ~10k instructions)
+    v.push(cfg("saftvrqmie_literal_h2fh1_nefh0", M::SaftVRQMie(saftvrqmie_mixed_fh()), 2, 40.0, false));
     v
+}
+
+/// hydrogen with first-order Feynman-Hibbs correction next to a classical (FH0) neon: the cross pair's order is max(fh_i, fh_j)
+pub fn saftvrqmie_mixed_fh() -> SaftVRQMie {
+    let rec = |name: &str, mw: f64, sigma: f64, eps: f64, lr: f64, fh: usize| {
+        PureRecord::new(
+            Identifier::new(None, Some(name), None, None, None, None),
+            mw,
+            SaftVRQMieRecord::new(1.0, sigma, eps, lr, 6.0, fh, None, None, None).unwrap(),
+        )
+    };
+    let recs = vec![rec("hydrogen", 2.0157309551872, 3.0243, 26.706, 9.0, 1), rec("neon", 20.17969806457545, 2.7778, 37.501, 13.0, 0)];
+    SaftVRQMie::new(Arc::new(SaftVRQMieParameters::from_records(recs, None).unwrap()))
 }
 
 /// literal PC-SAFT parameter sets with association topologies no shipped record has
